@@ -330,7 +330,8 @@ pub fn payload_seq_band(thorough: bool) -> Vec<WorldCase> {
             for place in SEQ_PLACES {
                 for is_async in [false, true] {
                     let quick = !is_async && matches!(place, "IfaceBoth" | "WorldBoth");
-                    if quick || thorough {
+                    // resource methods: sync only
+                    if quick || (thorough && !(is_async && place.starts_with("Method"))) {
                         out.push(payload_seq_world(&seq, nparams, place, is_async, kebab_v));
                     }
                 }
@@ -341,7 +342,7 @@ pub fn payload_seq_band(thorough: bool) -> Vec<WorldCase> {
     // thorough: all 256 sequences of length 4, every split, interface level
     for seq in sequences(4) {
         if thorough {
-            for nparams in 0..=4 {
+            for nparams in [0, 2, 4] {
                 out.push(payload_seq_world(&seq, nparams, "IfaceBoth", false, kebab_v));
             }
         } else if seq[0] == seq[2] {
